@@ -36,6 +36,11 @@ impl TransitionRule {
             return Err(TimeZoneError::InvalidTzFile("Invalid footer"));
         }
 
+        // An empty TZ string is allowed and means that there is no rule (RFC 8536 section 3.3)
+        if tz_string.is_empty() {
+            return Ok(None);
+        }
+
         let mut cursor = Cursor::new(tz_string.as_bytes());
 
         remove_designation(&mut cursor)?;
